@@ -112,6 +112,8 @@ func solveVC(vc *VC, cfg solveCfg) {
 				switch {
 				case ans[i] == want:
 					ob.Status = "proved"
+				case ob.IsCover && ans[i] == "unknown":
+					ob.Status = "unknown" // reachability not refuted; not counted as reachable
 				default:
 					ob.Status = "undecided"
 					ob.Output = ans[i]
@@ -204,5 +206,8 @@ func raceOne(vc *VC, ob *Oblig, base string, cfg solveCfg) {
 		}
 	}
 	ob.Status = "undecided"
+	if ob.IsCover {
+		ob.Status = "unknown"
+	}
 	ob.Output = strings.Join(outs, "; ")
 }
